@@ -4828,4 +4828,56 @@ theorem trunc_ofInt (i : Int) : Dy.trunc ⟨i, 0⟩ = i := by
   simp [Dy.trunc]
 
 
+/-! ## clone_deep: content of a closed block set; histories (C04 extension round) -/
+
+/-- a value whose blocks all lie in a set `S` closed under the handles stored in its blocks denotes the same tree in
+every heap that has the same cells at the ids of `S` -/
+theorem content_closed {S : Nat → Prop} {h h1 : Heap}
+    (hcl : ∀ id b, S id → getB h id = .ok b → ∀ v ∈ bvals b, ∀ c, handleOf v = some c → S c)
+    (hag : ∀ id, S id → h1[id]? = h[id]?) : ∀ (f : Nat) (v : V) (t : Tree),
+    (∀ id, handleOf v = some id → S id) → content f h v = some t → content f h1 v = some t
+  | 0, _, _, _, hc => by simp [content] at hc
+  | f + 1, v, t, hv, hc => by
+    cases hh : handleOf v with
+    | none => rw [content_scalar_indep hh]; exact hc
+    | some id =>
+      have hS := hv id hh
+      cases hb : getB h id with
+      | error e =>
+        rw [content_handle_none hh (by intro b hb'; rw [hb] at hb'; cases hb')] at hc; cases hc
+      | ok b =>
+        have hb1 : getB h1 id = .ok b := by rw [getB_eq, hag id hS, ← getB_eq]; exact hb
+        rw [content_handle hh hb] at hc
+        rw [content_handle hh hb1]
+        have hitems : ∀ kv ∈ b.items, ∀ t', content f h kv.2 = some t' → content f h1 kv.2 = some t' := by
+          intro kv hkv t' ht'
+          refine content_closed hcl hag f kv.2 t' ?_ ht'
+          intro c hc'
+          exact hcl id b hS hb kv.2 (List.mem_map.mpr ⟨kv, hkv, rfl⟩) c hc'
+        by_cases ho : isObjV v = true
+        · simp only [ho, if_true] at hc ⊢
+          cases hm : mapO b.items (fun kv => (content f h kv.2).map (fun t => (kv.1, t))) with
+          | none => simp [hm] at hc
+          | some ys =>
+            rw [hm] at hc
+            rw [mapO_congr_some (g' := fun kv => (content f h1 kv.2).map (fun t => (kv.1, t))) hm ?_]
+            · exact hc
+            · intro kv hkv y hy
+              cases hx : content f h kv.2 with
+              | none => simp [hx] at hy
+              | some t' => rw [hitems kv hkv t' hx]; rw [hx] at hy; exact hy
+        · simp only [ho] at hc ⊢
+          cases hm : mapO b.items (fun kv => content f h kv.2) with
+          | none => simp [hm] at hc
+          | some ys =>
+            rw [hm] at hc
+            rw [mapO_congr_some (g' := fun kv => content f h1 kv.2) hm ?_]
+            · exact hc
+            · intro kv hkv y hy
+              exact hitems kv hkv y hy
+
+theorem run_append (g : Bool) : ∀ (a b : List Op) (σ : State), run g σ (a ++ b) = run g (run g σ a) b
+  | [], _, _ => rfl
+  | x :: a, b, σ => by simp only [List.cons_append, run]; exact run_append g a b _
+
 end AslModel.Var
